@@ -32,7 +32,7 @@ use rustc_middle::ty::{self, EarlyBinder, GenericArgsRef, Instance, InstanceKind
 use rustc_span::Span;
 use std::collections::{BTreeMap, BTreeSet, HashMap, HashSet, VecDeque};
 
-const DRIVER_VERSION: &str = "nfsa-driver-8";
+const DRIVER_VERSION: &str = "nfsa-driver-9";
 
 struct Cb;
 
@@ -654,6 +654,9 @@ fn extract<'tcx>(tcx: TyCtxt<'tcx>) -> J {
             let sig = tcx.fn_sig(did).instantiate_identity().skip_norm_wip();
             o.push(("sig", J::S(with_no_trimmed_paths!(format!("{}", sig)))));
             o.push(("unsafe_fn", J::B(!sig.safety().is_safe())));
+            let g = tcx.generics_of(did);
+            let names: Vec<J> = (0..g.count()).map(|i| J::S(g.param_at(i, tcx).name.to_string())).collect();
+            o.push(("generics", J::A(names)));
             let vis = tcx.visibility(did);
             o.push(("pub", J::B(vis.is_public())));
         }
